@@ -107,6 +107,27 @@ def _fail(ctx: Ctx, nd: tg.Node, oracle: str, detail: str, where: t.Optional[tg.
         ctx.fail(oracle, (where or nd).kind, detail)
 
 
+def inherently_ambiguous(nd: tg.Node, v: t.Any, x: t.Any, trace_v: t.List[t.Any]) -> bool:
+    """
+    The sound exclusion "an earlier member captures the serialised form on re-read" holds only when that is true of the
+    serialisation *by the member that produced x*.  For a union at the root this is decided by observation: serialise x with the
+    producing member's type alone and ask the reference where that data lands.  If it lands where v did, the union is not
+    ambiguous for this value and a serialisation that re-reads elsewhere is the union's own doing (a member that narrows the
+    value, a serialiser picked by a loose isinstance test).  Below the root the old, wider exclusion stays.
+    """
+    import pane
+    if not isinstance(nd, tg.Union):
+        return True
+    (r, i) = nd.ref_index(v)
+    if i is None:
+        return True
+    (k, d_i) = outcome(lambda: pane.into_data(x, nd.members[i].pytype()))
+    if k != 'ok' or non_interchange(d_i) is not None:
+        return True
+    (rd, trace_i) = tg.ref_traced(nd, d_i)
+    return not (isinstance(rd, tg.Acc) and trace_i == trace_v)
+
+
 def roundtrip_problem(nd: tg.Node, v: t.Any) -> t.Optional[t.Tuple[str, str]]:
     """Run oracles (a)-(c) for (nd, v); -> (oracle, detail) of the first failure, or None.  Raises _Skip for excluded cases."""
     import pane
@@ -127,11 +148,12 @@ def roundtrip_problem(nd: tg.Node, v: t.Any) -> t.Optional[t.Tuple[str, str]]:
     (rd, trace_d) = tg.ref_traced(nd, d)
     if isinstance(rd, tg.Unspec):
         raise _Skip('re-read lands in an unspecified cell')
-    if isinstance(rd, tg.Acc) and trace_v != trace_d:
+    if isinstance(rd, tg.Acc) and trace_v != trace_d and inherently_ambiguous(nd, v, x, trace_v):
         raise _Skip('ambiguous-union')
     (k, y) = outcome(lambda: pane.from_data(d, T))
     if k != 'ok':
-        if isinstance(rd, tg.Rej) and any(n.kind in ('union', 'ValueOrList') or n.kind.startswith('typevar') for n in nd.walk()) and trace_v != trace_d:
+        if isinstance(rd, tg.Rej) and any(n.kind in ('union', 'ValueOrList') or n.kind.startswith('typevar') for n in nd.walk()) and trace_v != trace_d \
+                and inherently_ambiguous(nd, v, x, trace_v):
             raise _Skip('ambiguous-union')
         return ('reparse', f"{call}; d = into_data(x, T) = {short(d, 150)}; from_data(d, T) raised {type(y).__name__}: {str(y)[:300]}")
     SKIP_EXCLUDED[0] = True
@@ -140,7 +162,7 @@ def roundtrip_problem(nd: tg.Node, v: t.Any) -> t.Optional[t.Tuple[str, str]]:
     finally:
         SKIP_EXCLUDED[0] = False
     if diff is not None:
-        if trace_v != trace_d:
+        if trace_v != trace_d and inherently_ambiguous(nd, v, x, trace_v):
             raise _Skip('ambiguous-union')
         return ('reparse-equal', f"{call}; d = {short(d, 150)}; from_data(d, T) = {short(y, 150)} differs: {diff}")
     (k, d2) = outcome(lambda: pane.into_data(y, T))
